@@ -41,7 +41,7 @@ COMPONENTS = {'real': ['output_to_verilog', 'output_verilog_testbench', 'print_v
                        'fanout', 'synthesize', 'optimize', 'the three simulators'],
               'stub': ['RefSim', 'structural fingerprint', 'FaultyWriter (failing file object)']}
 
-TEXTS = ['verilog', 'testbench', 'vcd', 'print_trace_10_n', 'print_trace_10_c',
+TEXTS = ['verilog', 'testbench', 'testbench_bare', 'vcd', 'print_trace_10_n', 'print_trace_10_c',
          'print_trace_16_n', 'print_trace_16_c', 'trace']
 
 
